@@ -223,7 +223,19 @@ def run(run):
                 calls = [x for x in S.subterms(body) if is_call(x, "update_node")]
                 cond = [x for x in S.subterms(body) if isinstance(x, tuple) and x and x[0] in ("ite", "match")]
                 ok = len(calls) == 1 and not cond and calls[0][2][1][0] == "field" and calls[0][2][1][2] == "Some.0"
-        run.check("R3", "compute|every-dequeued-node-processed", ok, "compute() must call update_node for every node it takes from the worklist", F.loc(f["body"]))
+        if not ok:
+            # the loop body may live in a helper shared with compute_with_max_steps: specialise compute() with helpers followed
+            # ("no step bound") -- is a node taken from the worklist and update_node reached, with no exit in between?
+            from .lib import peval as PE1
+            nodes_c = PE1.Spec(F, follow_calls=True).reach(f["body"], {})
+            takes = [i for i, x in enumerate(nodes_c) if (T.is_call(x, ("pop_last", "take", "pop_first", "remove")) and x.get("a") and T.self_field(x["a"][0]) == "worklist") or T.is_call(x, ("take_next_node_from_worklist", "take_next_priority_from_worklist"))]
+            upds = [i for i, x in enumerate(nodes_c) if T.is_call(x, "update_node")]
+            if takes and upds and min(takes) < min(upds):
+                run.undecided("R3", "compute|every-dequeued-node-processed", "compute() processes its nodes through a helper; that every dequeued node reaches update_node is not decided path by path", F.loc(f["body"]))
+            else:
+                run.violated("R3", "compute|every-dequeued-node-processed", "compute() must call update_node for every node it takes from the worklist", F.loc(f["body"]))
+        else:
+            run.holds("R3", "compute|every-dequeued-node-processed", "", F.loc(f["body"]))
         # compute_with_max_steps
         f = F.fn("compute_with_max_steps", adt="Computation")
         sy = S.Sym(F)
